@@ -11,8 +11,8 @@ AST (json-able nested lists):
 
 Three independent things are derived from an AST:
   * render(): the pattern text with the minimal parentheses Python's ``re`` needs;
-  * Glushkov position automaton (first/last/follow) -> second oracle, dead-state and
-    prefix-ambiguity predicates used by the avoid switches;
+  * Glushkov position automaton (first/last/follow) -> second oracle, and the dead-state,
+    prefix-ambiguity and determinism predicates used by the avoid switches;
   * nothing else: ppci objects are built in checks/c31.py.
 """
 import itertools
@@ -169,18 +169,6 @@ def expand_plus(t):
     if t[0] in ("cat", "alt"):
         return [t[0], expand_plus(t[1]), expand_plus(t[2])]
     return t
-
-
-def may_diverge(t):
-    """Superset of the expressions on which a Brzozowski construction that only knows r|r = r
-    creates infinitely many derivatives: the expression has a star and, in the position automaton
-    of the expression as ppci builds it (e+ = e e*), two different runs on one string end in
-    positions with the same residual language (then a sum of derivatives can contain the same
-    term twice).  Star-free expressions and expressions without such runs have finitely many
-    duplicate-free sums."""
-    if not has(t, ("star", "plus")):
-        return False
-    return Glushkov(expand_plus(t)).confluent_runs()
 
 
 def nullable(t):
@@ -344,56 +332,6 @@ class Glushkov:
                 if sum(1 for q in self.follow[p] if self.matches(q, ch)) > 1:
                     return False
         return True
-
-    def residual_blocks(self):
-        """block number per position such that equal block <=> equal residual language
-        (subset construction from every singleton, Moore refinement)"""
-        reps = self.char_classes()
-        start = [frozenset([p]) for p in range(self.n + 1)]
-        seen = set(start)
-        todo = list(start)
-        delta = {}
-        while todo:
-            cur = todo.pop()
-            for ch in reps:
-                nxt = self.step(cur, ch)
-                delta[cur, ch] = nxt
-                if nxt not in seen:
-                    seen.add(nxt)
-                    todo.append(nxt)
-        block = {S: (1 if self.accepting(S) else 0) for S in seen}
-        while True:
-            sig = {S: (block[S],) + tuple(block[delta[S, ch]] for ch in reps) for S in seen}
-            ids = {}
-            new = {S: ids.setdefault(sig[S], len(ids)) for S in seen}
-            if len(ids) == len(set(block.values())):
-                return [new[S] for S in start]
-            block = new
-
-    def confluent_runs(self):
-        """two different runs on the same string that end in positions with equal residual language"""
-        blocks = self.residual_blocks()
-        reps = self.char_classes()
-        seen = set()
-        todo = [(0, 0, False)]
-        while todo:
-            item = todo.pop()
-            if item in seen:
-                continue
-            seen.add(item)
-            p, q, split = item
-            for ch in reps:
-                for p2 in self.follow[p]:
-                    if not self.matches(p2, ch):
-                        continue
-                    for q2 in self.follow[q]:
-                        if not self.matches(q2, ch):
-                            continue
-                        s2 = split or p2 != q2
-                        if s2 and blocks[p2] == blocks[q2]:
-                            return True
-                        todo.append((p2, q2, s2))
-        return False
 
     def prefix_ambiguous(self):
         """Are there two different runs on the same string that end in the same position?"""
